@@ -901,6 +901,46 @@ structure OpResultBuilder where
   r : COpResult
   deriving DecidableEq, Repr, Inhabited
 
+/-! the encapsulation-header builders (`fluent.MPLSEncapHeader()`, `fluent.UDPV6EncapHeader()`): each
+works on an `aftpb.Afts_NextHop_EncapHeader` whose own sub-message its constructor allocates -/
+
+structure MplsLabelU where
+  MplsLabelStackUint64 : Nat
+  deriving DecidableEq, Repr, Inhabited
+
+structure EhMplsB where
+  MplsLabelStack : List MplsLabelU
+  deriving DecidableEq, Repr, Inhabited
+
+structure EhUdpB where
+  Dscp : Option UintValue
+  DstIp : Option StringValue
+  DstUdpPort : Option UintValue
+  IpTtl : Option UintValue
+  SrcIp : Option StringValue
+  SrcUdpPort : Option UintValue
+  deriving DecidableEq, Repr, Inhabited
+
+/-- the header as the MPLS builder holds it -/
+structure EhMplsHdrB where
+  Type_ : Nat
+  Mpls : EhMplsB
+  deriving DecidableEq, Repr, Inhabited
+
+/-- the header as the UDPv6 builder holds it -/
+structure EhUdpHdrB where
+  Type_ : Nat
+  UdpV6 : EhUdpB
+  deriving DecidableEq, Repr, Inhabited
+
+structure MplsHdrBuilder where
+  pb : EhMplsHdrB
+  deriving DecidableEq, Repr, Inhabited
+
+structure UdpHdrBuilder where
+  pb : EhUdpHdrB
+  deriving DecidableEq, Repr, Inhabited
+
 /-- outcome of one iteration of the Modify receive loop: the RPC ends with this error (`none` =
 clean end), or the loop goes on with the new first-message flag -/
 inductive LoopOut where
